@@ -23,18 +23,33 @@ if __name__ != "__main__":
 
 PROPS = "Props/C19.v"
 RULE = ("correspondence: (prng) seeds x sequences of next/randint/choice/shuffle/random through cspuz.generator.srandom "
-        "with the deterministic PRNG enabled vs the extracted XorShift model, result by result plus the final 4-word state; "
-        "(cand) Builder.candidates + copy_with_update of Choice/ArrayBuilder2D (all symmetry x disallow_adjacent x use_move "
-        "combinations, valid and malformed initial grids) vs the model, in order, plus PRNG state; (nb) "
-        "build_neighbor_generator over nested list/tuple patterns vs the model's neighbour list; (run) whole "
-        "generate_problem runs with synthetic table-driven solver/uniqueness/score/pretest/clue_penalty callbacks that exist "
-        "in Python and in the OCaml driver: the sequence of problems handed to the solver, the result, the callback call "
-        "count and the final PRNG state vs the model's run; every srandom draw of those runs is replayed on the model from "
-        "the recorded state; each run is repeated in a subprocess under a different PYTHONHASHSEED and random.seed. "
-        "search: independent Python oracles on the real code: randint/choice/shuffle/random ranges and coverage, neighbour "
-        "locality / symmetry / adjacency, soundness of the returned problem, earlier problems unmutated (deep copies), "
-        "same-seed reproducibility incl. SegmentationBuilder2D patterns.  A case is non-trivial when it is a distinct "
-        "(kind, input) pair.")
+        "with the deterministic PRNG enabled vs the extracted XorShift model, result by result plus the final 4-word state "
+        "(seeds and bounds are int objects created at run time; choice over list / range / tuple; lists up to 1000 elements; "
+        "choice over ranges of up to 2^32 candidates; pure randint streams over widths near 2^31, 3*2^30, 2^32/3; the same "
+        "seed -- incl. 0 and the default None, passed positionally / by keyword / omitted -- enabled again after other draws, "
+        "other seeds, switching the PRNG off and on); (cand) Builder.candidates + copy_with_update of Choice/ArrayBuilder2D "
+        "(all symmetry x disallow_adjacent x use_move combinations, valid and malformed initial grids, boards up to 7x7 with "
+        "structured contents) vs the model, in order, plus PRNG state; the same builder object asked a second time continuing "
+        "the stream (model run from the recorded state) after the caller emptied the returned lists, and a third time after "
+        "re-seeding; (nb) build_neighbor_generator over nested list/tuple patterns vs the model's neighbour list, one generator "
+        "object used three times likewise; (run) whole generate_problem runs with synthetic table-driven "
+        "solver/uniqueness/score/pretest/clue_penalty callbacks that exist in Python and in the OCaml driver: the sequence of "
+        "problems handed to the solver, the result, the callback call count and the final PRNG state vs the model's run; a "
+        "second run over the same builder objects (same seed) and a third one that continues the stream (model run from that "
+        "state); every srandom draw of those runs is replayed on the model from the recorded state; each run is repeated in a "
+        "subprocess under a different PYTHONHASHSEED and random.seed.  In cand / nb / run the same integers reach the real "
+        "code in input variants: values as the spec's ints, as fresh int objects (choice sets shifted outside the small-int "
+        "cache [-5, 256]), as str, as tuples, default as an equal float; the choice set as list / tuple / range / generator / "
+        "iter / map; ArrayBuilder2D arguments by keyword / defaults omitted / positional; disallow_adjacent as list / tuple / "
+        "True spelled out; the caller's choice list modified after construction; generate_problem called with builder_pattern, "
+        "with initial_problem + neighbor_generator, or with every defaulted argument omitted.  "
+        "search: independent Python oracles on the real code: randint/choice/shuffle/random ranges and coverage; every draw "
+        "of long randint / choice(range(w)) streams over the wide widths against textbook rejection sampling on a reference "
+        "xorshift128; same seed => same stream and same run after arbitrary srandom histories in one process; neighbour "
+        "locality / symmetry / adjacency; candidate sequences independent of the argument form and reproducible on the same "
+        "builder / generator object; builder arguments and current problems left unmodified; soundness of the returned problem, "
+        "earlier problems unmutated (deep copies), same-seed reproducibility across processes and on reused builder objects, "
+        "incl. SegmentationBuilder2D patterns.  A case is non-trivial when it is a distinct (kind, input) pair.")
 TRUSTED = [
     "IEEE-754: an integer < 2^53 divided by 2^32 is exact in binary64, so srandom.random() == numerator / 2^32 exactly (checked with fractions.Fraction on every draw)",
     "the acceptance test random() < exp((next - current) / temperature) is a Section variable of the model; the OCaml driver instantiates it with the same binary64 operations and the same libm exp as CPython",
@@ -42,7 +57,9 @@ TRUSTED = [
 ]
 ASSUMPTIONS = [
     "callbacks do not raise, do not draw from srandom and do not modify the problem they are given (they may be stateful: the model threads an abstract world state)",
-    "Choice values and grid cells are integers; patterns are Builders, ints, lists and tuples",
+    "Choice values and grid cells are integers in the model; the real code is also run on str / tuple / float encodings of the same integers (it only compares values with == / !=) and decoded before comparison; patterns are Builders, constants, lists and tuples",
+    "disallow_adjacent is True, False or a re-iterable list / tuple of (dy, dx) tuples: the constructor stores the object itself and iterates it for every cell, so a one-shot iterator there is outside the accepted inputs (lists of lists are not accepted either: membership is tested with tuples); initial= is a list of lists and is aliased by design (initial() returns it)",
+    "seed None means seed 0 (srandom.use_deterministic_prng spells this out); the model is run with 0",
     "randint's rejection loop is given fuel 256 in the model (each draw is accepted with probability > 1/2)",
     "SegmentationBuilder2D is not part of the Coq model (C18 models it): reproducibility of runs over such patterns is observed by the search, not proved",
     "'regardless of the backend': the backend only enters through the solver callback; the runs use synthetic callbacks, backend independence of real solvers is C02's subject",
@@ -546,21 +563,28 @@ def python_run(cfg, hook=None, watch=True, pattern=None, reseed=True):
     pattern: reuse these builder objects instead of building new ones; reseed=False: continue the stream."""
     with variant(cfg.get("var")):
         keep = []
-        if pattern is None:
-            pattern = build_pattern(cfg["pattern"], keep)
         cb = Callbacks(cfg, watch=watch)
         cb.keep = keep
         cb.has_events = cfg.get("gp", "pattern") != "omit"
-        if reseed:
-            do_history(cfg.get("hist") or [])
-            seed_prng(cfg["seed"], cfg.get("seedhow", "pos"))
-        if hook:
-            hook(True)
+        cb.result = None
+        cb.args_changed = []
+        if pattern is None:
+            try:
+                pattern = build_pattern(cfg["pattern"], keep)
+            except Exception as ex:
+                return ("err", err_name(ex)), cb, None
         old_stderr = sys.stderr
-        sys.stderr = cb
+        hooked = False
         try:
             try:
               with time_limit(60):
+                if reseed:
+                    do_history(cfg.get("hist") or [])
+                    seed_prng(cfg["seed"], cfg.get("seedhow", "pos"))
+                if hook:
+                    hook(True)
+                    hooked = True
+                sys.stderr = cb
                 r = call_generate(cfg, cb, pattern)
               out = ("ok", ("None" if r is None else show_prob(r), prng_state(), cb.calls, tuple(cb.trace)))
               cb.result = r
@@ -571,7 +595,7 @@ def python_run(cfg, hook=None, watch=True, pattern=None, reseed=True):
                 cb.result = None
         finally:
             sys.stderr = old_stderr
-            if hook:
+            if hooked:
                 hook(False)
         cb.args_changed = args_changed(keep)
     return out, cb, pattern
@@ -696,9 +720,13 @@ def choice_seq(n, i):
 def py_ops(seed, ops, hist=None, how="pos"):
     import cspuz.generator.srandom as sr
     import cspuz.generator.deterministic_random as dr
-    do_history(hist or [])
-    seed_prng(seed, how)
     out = []
+    try:
+        with time_limit(20):
+            do_history(hist or [])
+            seed_prng(seed, how)
+    except Exception as ex:
+        return [err_tok(err_name(ex)) + ":enabling-the-prng"], prng_state()
     for i, op in enumerate(ops):
         try:
           with time_limit(20):
@@ -1598,14 +1626,14 @@ def search_reseed(ctx):
             if k == 1:
                 hist = [["draw", 5]]                          # plain: some draws, then the same seed again
             how = rng.choice(["pos", "kw", "omit"])
-            do_history(hist)
             try:
+                do_history(hist)
                 st = observe_stream(seed, how)
+                do_history(hist)
             except Exception as ex:
-                ctx.violation("reseed-raises", "enabling the deterministic PRNG / drawing raised",
-                              {"seed": seed, "history": hist, "exception": "%s: %s" % (type(ex).__name__, ex)})
+                ctx.violation("reseed-raises", "enabling the deterministic PRNG with a valid seed / drawing from it raised",
+                              {"seed": seed, "seed_passed": how, "history": hist, "exception": "%s: %s" % (type(ex).__name__, ex)})
                 break
-            do_history(hist)
             po, cb, _ = python_run(dict(base_cfg, seedhow=how), watch=False)
             obs = (st, po)
             ctx.prop_case("same-seed-after-history", (seed, json.dumps(hist), how))
@@ -1622,7 +1650,10 @@ def search_reseed(ctx):
                                "run_cfg": base_cfg, "first_run": first[0][1], "second_run": po})
                 break
     # seed None is the seed 0 of the documentation
-    a, b = observe_stream(None, "omit"), observe_stream(0, "pos")
+    try:
+        a, b = observe_stream(None, "omit"), observe_stream(0, "pos")
+    except Exception:
+        return                                            # reported above as reseed-raises
     ctx.prop_case("seed-none-is-zero", 0)
     if a != b:
         ctx.violation("seed-none-differs-from-0", "use_deterministic_prng(True) and use_deterministic_prng(True, 0) give different streams",
@@ -1666,6 +1697,26 @@ def search_neighbours(ctx):
                 continue
             changed = p != praw
             argch = args_changed(keep)
+        if var != DEFAULT_VARIANT:
+            # the same integers in the plain form (lists of the spec's own int objects, every keyword given)
+            try:
+                with time_limit(30):
+                    _, gen = build_neighbor_generator(build_pattern(spec))
+                    seed_prng(seed)
+                    ns_plain = list(gen(copy.deepcopy(p0)))
+            except Exception:
+                ns_plain = None
+            ctx.prop_case("neighbours-form-independent", (json.dumps(spec), show_prob_int(p0), seed, var_key(var)))
+            if ns_plain is not None and ns_plain != ns:
+                k = 0
+                while k < min(len(ns), len(ns_plain)) and ns[k] == ns_plain[k]:
+                    k += 1
+                ctx.violation("neighbours-depend-on-argument-form",
+                              "same pattern, same current problem, same seed: the candidate sequence depends on the form in which the "
+                              "same values were passed (object identity of equal values / container type / one-shot iterable / keyword use)",
+                              {"pattern": spec, "variant": var, "current": p0, "seed": seed, "first_difference_at": k,
+                               "count_plain": len(ns_plain), "count_variant": len(ns),
+                               "plain_form": ns_plain[k:k + 1], "variant_form": ns[k:k + 1]})
         ctx.prop_case("neighbour-locality", (json.dumps(spec), show_prob_int(p0), seed, var_key(var)))
         for q in ns:
             try:
@@ -1730,6 +1781,26 @@ def search_candidates(ctx):
                 continue
             changed = dec_prob(cur) != cur0
             argch = args_changed(keep)
+        if var != DEFAULT_VARIANT:
+            try:
+                with time_limit(30):
+                    bp = build_pattern(spec)
+                    seed_prng(seed)
+                    plain = [[tuple(t) for t in u] for u in bp.candidates(copy.deepcopy(cur0))]
+            except Exception:
+                plain = None
+            ctx.prop_case("candidates-form-independent", (json.dumps(spec), show_prob_int(cur0), seed, var_key(var)))
+            if plain is not None and plain != ucands:
+                k = 0
+                while k < min(len(plain), len(ucands)) and plain[k] == ucands[k]:
+                    k += 1
+                ctx.violation("candidates-depend-on-argument-form",
+                              "same builder parameters, same grid, same seed: candidates() depends on the form in which the same values "
+                              "were passed (object identity of equal values / container type / one-shot iterable / keyword use)",
+                              {"builder": spec, "variant": var, "current": cur0, "seed": seed, "first_difference_at": k,
+                               "count_plain": len(plain), "count_variant": len(ucands),
+                               "plain_form": [list(map(list, u)) for u in plain[k:k + 1]],
+                               "variant_form": [list(map(list, u)) for u in ucands[k:k + 1]]})
         ctx.prop_case("array-candidates", (json.dumps(spec), show_prob_int(cur0), seed, var_key(var)))
         D_ok = (0, 0) not in D and all((-dy, -dx) in D for dy, dx in D)
         pre_sym = nd_symmetric(cur0, h, w, d)
@@ -1934,15 +2005,63 @@ def replay(ctx, rp):
         from cspuz.generator import build_neighbor_generator
         spec = d["pattern"]
         p = tuplify_like(spec, d["current"])
-        _, gen = build_neighbor_generator(build_pattern(spec))
-        seed_prng(d["seed"])
-        bad = []
-        for q in gen(p):
-            n, b = check_local(spec, p, q)
-            if n > 1 or b:
-                bad.append((show_prob(q), n, b))
+        with variant(d.get("variant")):
+            _, gen = build_neighbor_generator(build_pattern(spec))
+            seed_prng(d["seed"])
+            bad = []
+            for q in gen(enc_problem(spec, p)):
+                q = dec_prob(q)
+                n, b = check_local(spec, p, q)
+                if n > 1 or b:
+                    bad.append((show_prob_int(q), n, b))
         print("offending neighbours:", bad[:5])
         return 1 if bad else 0
+    if key.startswith("array-update:") and "builder" in d:
+        spec = d["builder"]
+        with variant(d.get("variant")):
+            b = build_pattern(spec)
+            seed_prng(d["seed"])
+            cur = enc_grid(d["current"])
+            bad = []
+            for u in b.candidates(cur):
+                q = dec_prob(b.copy_with_update(cur, u))
+                c = check_grid_step(spec, d["current"], q)
+                if c:
+                    bad.append((dec_update(u), c))
+        print("offending updates (symmetry / locality oracle only):", bad[:5])
+        return 1 if bad else 0
+    if key in ("neighbours-depend-on-argument-form", "candidates-depend-on-argument-form"):
+        from cspuz.generator import build_neighbor_generator
+        spec = d.get("pattern", d.get("builder"))
+        p = tuplify_like(spec, d["current"])
+        res = []
+        for var in (None, d["variant"]):
+            with variant(var):
+                _, gen = build_neighbor_generator(build_pattern(spec))
+                seed_prng(d["seed"])
+                res.append([dec_prob(q) for q in gen(enc_problem(spec, p))])
+        print("plain form: %d neighbours, variant form: %d neighbours, equal: %s" % (len(res[0]), len(res[1]), res[0] == res[1]))
+        return 0 if res[0] == res[1] else 1
+    if key == "randint-not-rejection-sampled":
+        import cspuz.generator.srandom as sr
+        ref = RefXorShift(d["seed"])
+        seed_prng(d["seed"])
+        for j in range(d["draw_index"] + 1):
+            exp, words = ref_randint(ref, d["a"], d["b"])
+            v = sr.choice(range(d["b"] + 1)) if (d["a"] == 0 and j % 4 == 3) else sr.randint(d["a"], d["b"])
+            if v != exp:
+                print("draw %d: %d, rejection sampling gives %d (words %r)" % (j, v, exp, words))
+                return 1
+        return 0
+    if key == "same-seed-different-after-history":
+        outs = []
+        for hist, how in ((d["first_history"], d["first_seed_passed"]), (d["second_history"], d["second_seed_passed"])):
+            do_history(hist)
+            outs.append(observe_stream(d["seed"], how))
+            do_history(hist)
+            outs.append(python_run(dict(d["run_cfg"], seedhow=how), watch=False)[0])
+        print("streams equal:", outs[0] == outs[2], " runs equal:", outs[1] == outs[3])
+        return 0 if (outs[0] == outs[2] and outs[1] == outs[3]) else 1
     return 2
 
 
